@@ -886,4 +886,73 @@ def Pre_spAssign (key : List KeyEntry) (rhs : List Nat) : Prop :=
 instance (key : List KeyEntry) (rhs : List Nat) : Decidable (Pre_spAssign key rhs) := by
   unfold Pre_spAssign; exact inferInstanceAs (Decidable (∀ m, m < (keyModes key).length → _))
 
+/-! ### argument forms (second mutation study) -/
+
+/-- the shape NumPy gives `np.atleast_1d(v.squeeze())`: the extents other than 1, `(1,)` when none is left -/
+def squeezed1 (v : List Nat) : List Nat :=
+  match v.filter (fun e => e != 1) with
+  | [] => [1]
+  | l => l
+
+/-- `ktensor.ttv` with the multiplicands given by SHAPE (arrays of any order) -/
+structure TtvMArgs where
+  shape : List Nat
+  vshapes : List (List Nat)
+  dims : Option (List Int)
+  excl : Option (List Int)
+
+/-- the mode selection is well formed for that many multiplicands and every multiplicand that is used is,
+after dropping singleton axes, a vector with the extent of its mode (a matrix, also one with the right
+number of rows, is not) -/
+def Pre_ttvM (a : TtvMArgs) : Prop :=
+  Pre_dimscheck a.shape.length (some a.vshapes.length) a.dims a.excl ∧
+  ∀ p ∈ pairing a.vshapes.length (selModes a.shape.length a.dims a.excl),
+    squeezed1 (a.vshapes.getD p.1 []) = [a.shape.getD p.2 0]
+
+instance (a : TtvMArgs) : Decidable (Pre_ttvM a) := by unfold Pre_ttvM; infer_instance
+
+/-- the arguments of `khatrirao` given by shape (arrays of any order) read as matrices -/
+def shapesAsMats (shapes : List (List Nat)) : List MatS := shapes.map fun s => (s.getD 0 0, s.getD 1 0)
+
+/-- `khatrirao` of arrays of any order: every argument is 2-dimensional, and as matrices they satisfy `Pre_khatrirao` -/
+def Pre_khatriraoND (shapes : List (List Nat)) : Prop :=
+  (∀ s ∈ shapes, s.length = 2) ∧ Pre_khatrirao (shapesAsMats shapes)
+
+instance (shapes : List (List Nat)) : Decidable (Pre_khatriraoND shapes) := by unfold Pre_khatriraoND; infer_instance
+
+/-- `sptensor(subs, vals, …)`: subscripts and values come together (both or neither) -/
+def Pre_sptensorGiven (subs vals : Bool) : Prop := subs = vals
+
+instance (s v : Bool) : Decidable (Pre_sptensorGiven s v) := by unfold Pre_sptensorGiven; infer_instance
+
+/-- `sptenmat(subs, vals, rdims, cdims, …)` with non-empty arrays: subscripts and values come together, and only
+with a mode split (`dims`: at least one of `rdims`, `cdims` is given) -/
+def Pre_sptenmatGiven (subs vals dims : Bool) : Prop := subs = vals ∧ (subs = true → dims = true)
+
+instance (s v d : Bool) : Decidable (Pre_sptenmatGiven s v d) := by unfold Pre_sptenmatGiven; infer_instance
+
+/-- an array (given by its shape) that is handed over as a vector - the data of `ktensor.from_vector` - is
+1-dimensional, or 2-dimensional with a single row or column -/
+def Pre_isVector (s : List Nat) : Prop := s.length = 1 ∨ (s.length = 2 ∧ (s.getD 0 0 = 1 ∨ s.getD 1 0 = 1))
+
+instance (s : List Nat) : Decidable (Pre_isVector s) := by unfold Pre_isVector; infer_instance
+
+/-- an integer array (given by its shape) that is handed over as a SHAPE has at most one axis longer than 1 -/
+def Pre_shapeArray (s : List Nat) : Prop := (s.filter fun e => e != 1).length ≤ 1
+
+instance (s : List Nat) : Decidable (Pre_shapeArray s) := by unfold Pre_shapeArray; infer_instance
+
+
+/-- `tensor.tenfun(f, *others)`: a function of one argument (the stacked operands) takes any number of operands, a
+function of two arguments exactly one; nothing else is a request -/
+def Pre_tenfunArity (nargs others : Nat) : Prop := nargs = 1 ∨ (nargs = 2 ∧ others = 1)
+
+instance (a o : Nat) : Decidable (Pre_tenfunArity a o) := by unfold Pre_tenfunArity; infer_instance
+
+/-- `S[subs] = value` with an array of subscripts: a row names every mode (more columns than modes is growth on
+assignment, property C04; fewer is not a request) -/
+def Pre_setSubsWidth (N width : Nat) : Prop := N ≤ width
+
+instance (n w : Nat) : Decidable (Pre_setSubsWidth n w) := by unfold Pre_setSubsWidth; infer_instance
+
 end Pyttb
